@@ -12,5 +12,7 @@ MCDocOf ==
        \* the refused element sits inside nested namespaces, after a good declaration: a parse that gives up there
        \* must leave nothing behind in the instance
        [] d = "Bad" -> << D("extern", <<"X">>, "p1"), [t |-> "open", ids |-> <<"Z">>], [t |-> "open", ids |-> <<"Y", "W">>],
-                          D("enum", <<"E">>, "p0"), [t |-> "broken"], [t |-> "close"], [t |-> "close"] >> ]
+                          D("enum", <<"E">>, "p0"), [t |-> "broken", how |-> "interface"], [t |-> "close"], [t |-> "close"] >> ]
+\* how = "interface": the refused element is an interface whose local types are fine and whose last event is refused, so the
+\* parser gives up after it has already seen declarations of that element
 =============================================================================
